@@ -126,6 +126,25 @@ Proof.
   - apply storage_rate_bounds; auto.
 Qed.
 
+(* ... and for a storage the constructor accepts (end level within [0, size]) the level is within [0, size] at EVERY step *)
+Theorem storage_feasible_level_everywhere g rg p a x :
+  storage_ctor_ok p = true ->
+  storage g rg p = Some a -> sp_no_simult p = false -> sp_max_dur p = None -> rg_T rg <> 0%nat ->
+  List.length (rg_dt rg) = rg_T rg ->
+  feasible (ap_lp a) x ->
+  forall t, (t < rg_T rg)%nat ->
+    0 <= level p (rg_T rg) (rg_dt rg) x t /\ level p (rg_T rg) (rg_dt rg) x t <= sp_size p.
+Proof.
+  intros Hc H Hs Hm Hn Hl Hf t Ht.
+  destruct (storage_feasible_physics g rg p a x H Hs Hm Hn Hl Hf t Ht) as [[Hlast Hin] _].
+  unfold storage_ctor_ok in Hc. apply andb_true_iff in Hc. destruct Hc as [Hc He2].
+  apply andb_true_iff in Hc. destruct Hc as [_ He1].
+  apply Qle_bool_iff in He1. apply Qle_bool_iff in He2.
+  destruct (Nat.eq_dec (S t) (rg_T rg)) as [E|E].
+  - rewrite (Hlast E). split; assumption.
+  - apply Hin; assumption.
+Qed.
+
 (* no simultaneous in/out: with the binary mode variable b_i the rows force one side to zero *)
 Theorem no_simult_exclusive name n cp ct I a x i : (i < n)%nat ->
   Forall (row_ok x) (lp_rows (ap_lp (add_no_simult name n cp ct I a))) ->
